@@ -122,6 +122,15 @@ def ideal_models(ids, x, T, P):
         vals += [np.asarray(pcf(T, P), float).ravel()]
         if hasattr(pcf, 'f'):
             vals += [np.asarray(pcf.f(T, P, *getattr(pcf, 'args', ())), float).ravel()]
+        # what a call returns belongs to the caller: the caller uses the returned values in place (as the flash solvers do with
+        # K = gamma * ...), then asks again - the models must still return one
+        def use(r):
+            if isinstance(r, np.ndarray) and r.flags.writeable:
+                r *= 3.
+        use(a(np.array(x), T)); use(a.f(np.array(x), T, *a.args)); use(p(np.array(x), T, P)); use(p.f(np.array(x), T, P, *p.args)); use(pcf(T, P))
+        vals += [np.asarray(a(np.array(x), T), float).ravel(), np.asarray(a.f(np.array(x), T, *a.args), float).ravel(),
+                 np.asarray(p(np.array(x), T, P), float).ravel(), np.asarray(p.f(np.array(x), T, P, *p.args), float).ravel(),
+                 np.asarray(pcf(T, P), float).ravel()]
         allv = np.concatenate(vals)
         obs['ideal_dev'] = 0 if np.all(allv == 1.) else max(1, cap(np.abs(allv - 1.).max() * 1e9))
     except Exception as e:
